@@ -256,6 +256,12 @@ def run_check(machine, tier, replay=None):
             harness_problem = True
             print(f"HARNESS-ERROR property={prop} replay {path} did not reproduce in a fresh interpreter:\n{text}", file=sys.stderr)
         n += 1
+    det = None
+    if os.environ.get("VERIF_SKIP_DETERMINISM") != "1" and scale == 1.0:
+        det = determinism_selftest(machine, tier)
+        if det["status"] != "identical":
+            print(f"HARNESS-ERROR property={prop} determinism self-test: {det}", file=sys.stderr)
+            harness_problem = True
     wall = timer.elapsed()
     coverage = {
         "evaluations": int(tot["histories"]),
@@ -274,6 +280,7 @@ def run_check(machine, tier, replay=None):
         "components": {"real": machine.REAL_COMPONENTS, "stub": ["none: the model is an oracle beside the real objects, nothing of pyimpspec is replaced"]},
         "isolation": getattr(machine, "ISOLATE", "none"),
         "harness_workers": batch.default_workers(),
+        "determinism_selftest": det,
     }
     report.write_evidence(prop, tier, seed, coverage, wall, len(new_by_key), machine.ASSUMPTIONS)
     if harness_problem:
@@ -295,3 +302,40 @@ def run_replay(machine, path):
         return 1
     print(f"replay {path}: no violation with key {key} (got: {None if v is None else report.key_str(v['key'])})")
     return 0
+
+
+def _history_digest(res):
+    v = res["violation"]
+    return hashlib.sha256(json.dumps([res["population"], res["records"], res["step"], None if v is None else v["key"],
+                                      res["stats"]["states"]], sort_keys=True, default=str).encode()).hexdigest()[:16]
+
+
+def emit_digests(machine, tier, njobs, count):
+    import pyimpspec  # noqa: F401
+
+    if hasattr(machine, "setup"):
+        machine.setup()
+    seed = report.verif_seed()
+
+    def fn(job):
+        return [_history_digest(execute(machine, seed=run_seed(job["seed"], machine.PROP + "/history", job["first"] + h))) for h in range(job["count"])]
+
+    jobs = [{"first": j * count, "count": count, "seed": seed} for j in range(njobs)]
+    res = batch.run_jobs(fn, jobs, wall_limit=1500.0, per_job_limit=900.0)
+    return {str(j): r for j, r in enumerate(res)}
+
+
+def determinism_selftest(machine, tier, njobs=4, count=40):
+    import subprocess
+
+    a = emit_digests(machine, tier, njobs, count)
+    env = dict(os.environ)
+    env["PYTHONHASHSEED"] = "7" if env.get("PYTHONHASHSEED") != "7" else "11"
+    env["VERIF_WORKERS"] = "2"
+    cmd = [sys.executable, os.path.join(report.VERIF, "check.py"), machine.PROP, "--tier", tier, "--emit-digests", f"{njobs},{count}"]
+    p = subprocess.run(cmd, capture_output=True, text=True, env=env, cwd=report.VERIF, timeout=1500)
+    if p.returncode != 0:
+        return {"status": "harness-error", "detail": p.stderr[-500:]}
+    b = json.loads(p.stdout.strip().splitlines()[-1])
+    return {"status": "identical" if a == b else "DIVERGED", "histories_compared": njobs * count,
+            "fresh_interpreter_hashseed": env["PYTHONHASHSEED"], "harness_workers": [batch.default_workers(), 2]}
